@@ -223,9 +223,9 @@ PRESERVE_SPELLINGS = [None, ['aaa'], ['aaa,ccc'], ['aaa', 'ccc'], [' aaa , ccc '
 
 def scenarios_c13(r, tier):
     out = []
-    subs = flag_subsets(r, 8 if tier == 'quick' else 400, include_pairs=(tier != 'quick'))
+    subs = flag_subsets(r, {'quick': 8, 'search': 60}.get(tier, 400), include_pairs=(tier == 'thorough'))
     for i, fl in enumerate(subs):
-        route = ['file', 'stdin', 'file-output', 'stdin-output', 'inplace'][i % 5] if tier != 'quick' else ['file', 'stdin'][i % 2]
+        route = ['file', 'stdin', 'file-output', 'stdin-output', 'inplace'][i % 5] if tier != 'quick' else ['file', 'stdin', 'file', 'inplace', 'stdin-output'][i % 5]
         pl = PRESERVE_SPELLINGS[i % len(PRESERVE_SPELLINGS)]
         pg = [None, ['longglobalname'], ['fff, KKK'], ['longglobalname', 'fff']][i % 4]
         out.append(mk_route(route, WITNESS, fl, pl, pg))
@@ -269,7 +269,7 @@ def scenarios_c14(r, tier):
         for rt in routes:
             out.append(mk_route(rt, SOURCES[s], [], env_force='1'))
             out.append(mk_route(rt, SOURCES[s], [], env_force=''))
-    if tier != 'quick':
+    if tier == 'thorough':
         for s in srcs:
             for fl in flag_subsets(r, 6)[1:]:
                 out.append(mk_route(r.choice(routes), SOURCES[s], fl))
@@ -280,7 +280,7 @@ def scenarios_c15(r, tier):
     out = []
     good = [b'x  =  1\n', b'def f(abc):\n    return abc\n', WITNESS, b'import a\nimport b\n']
     bad = [('invalid', INVALID), ('undecodable', UNDECODABLE), ('unreadable', ('link', 'nonexistent-target'))]
-    n = 3 if tier == 'quick' else 6
+    n = {'quick': 3, 'search': 4}.get(tier, 6)
     # failure at every position of a flat list of explicit file arguments and of a directory
     for nfiles in range(1, n + 1):
         for pos in range(nfiles):
